@@ -1485,6 +1485,16 @@ func (fr *frame) runInvariantLoop(l *loop, spec *contract.LoopSpec, iter []int) 
 		for _, ref := range refsOf(v) {
 			r.assume(c.True(), c.Op("<", nil, ref, hdr.getPV("$alloc", smt.Int)))
 		}
+		// the hidden index of a `range` loop over a slice or array: go/ssa builds
+		//   i = phi(-1, i+1);  i+1 < len(x) ? body : done      with x defined outside the loop,
+		// so -1 <= i < len(x) holds at the head by construction (initially -1 and len >= 0; the back edge
+		// is taken only under i+1 < len). Stated as a fact, it needs no user invariant.
+		if p.Comment == "rangeindex" {
+			if lenT := r.rangeIndexBound(fr, hdr, l, p); lenT != nil {
+				iv := r.scalarOf(v, p.Type())
+				r.assume(hdr.alive, c.And(r.sle(r.isub(r.idxConst(0), r.idxConst(1)), iv), r.slt(iv, lenT)))
+			}
+		}
 	}
 	en := fr.loopEnv(l, hdr, pkg)
 	for _, cl := range spec.Invariants {
@@ -1605,6 +1615,66 @@ func (fr *frame) dryRunLoop2(l *loop, it []int, pre *node, phis []*ssa.Phi, havo
 	return w, r.cellLog, r.wholeLog, mark
 }
 
+// rangeIndexBound recognises the index phi of a go/ssa range loop over a slice or array and returns the
+// (loop-invariant) length term, or nil when the shape is not exactly the one described at the call site.
+func (r *run) rangeIndexBound(fr *frame, hdr *node, l *loop, p *ssa.Phi) *smt.Term {
+	if p.Block() != l.header || len(p.Edges) < 2 {
+		return nil
+	}
+	var inc *ssa.BinOp
+	sawInit := false
+	for i, e := range p.Edges {
+		pred := l.header.Preds[i]
+		if l.blocks[pred] {
+			// every back edge (there are several with `continue`) carries the same i+1
+			b, ok := e.(*ssa.BinOp)
+			if !ok || b.Op != token.ADD || b.X != ssa.Value(p) || b.Block() != l.header || (inc != nil && inc != b) {
+				return nil
+			}
+			k, ok := b.Y.(*ssa.Const)
+			if !ok || k.Value == nil || constantBig(k).Cmp(big.NewInt(1)) != 0 {
+				return nil
+			}
+			inc = b
+		} else {
+			if sawInit {
+				return nil
+			}
+			k, ok := e.(*ssa.Const)
+			if !ok || k.Value == nil || constantBig(k).Cmp(big.NewInt(-1)) != 0 {
+				return nil
+			}
+			sawInit = true
+		}
+	}
+	if inc == nil || !sawInit || len(l.header.Instrs) == 0 {
+		return nil
+	}
+	br, ok := l.header.Instrs[len(l.header.Instrs)-1].(*ssa.If)
+	if !ok {
+		return nil
+	}
+	cond, ok := br.Cond.(*ssa.BinOp)
+	if !ok || cond.Op != token.LSS || cond.X != ssa.Value(inc) {
+		return nil
+	}
+	// the bound must be computed outside the loop (len(x) is evaluated once before a range loop)
+	if in, isInstr := cond.Y.(ssa.Instruction); isInstr {
+		if in.Block() == nil || l.blocks[in.Block()] {
+			return nil
+		}
+	} else if _, isConst := cond.Y.(*ssa.Const); !isConst {
+		if _, isParam := cond.Y.(*ssa.Parameter); !isParam {
+			return nil
+		}
+	}
+	v := hdr.val(cond.Y)
+	if v == nil {
+		return nil
+	}
+	return r.toIdx(r.scalarOf(v, cond.Y.Type()), cond.Y.Type())
+}
+
 // freshInLoop: ref is the reference of an object allocated during the current iteration of the loop whose
 // second dry run started with allocation counter dryAlloc (ref == dryAlloc + k, k >= 0 a constant).
 func freshInLoop(ref, dryAlloc *smt.Term) bool {
@@ -1718,7 +1788,13 @@ func (fr *frame) entryNode() *node {
 	if fr.fn == nil {
 		return nil
 	}
-	return fr.nodes[iterKey(fr.fn.Blocks[0], nil)]
+	root := fr.nodes[iterKey(fr.fn.Blocks[0], nil)]
+	// the state at function entry is the state BEFORE the first block runs (the root node accumulates the
+	// writes and allocations of block 0)
+	if root != nil && len(root.preds) == 1 && root.preds[0].from != nil {
+		return root.preds[0].from
+	}
+	return root
 }
 
 // namedValueAt finds the SSA value that holds source variable `name` at the head of block b:
@@ -1780,6 +1856,17 @@ func (e *Engine) namedValueAt(fn *ssa.Function, name string, b *ssa.BasicBlock) 
 		}
 		if d > bestDepth || d == bestDepth && idx > bestIdx {
 			best, bestDepth, bestIdx = v, d, idx
+		}
+	}
+	// a variable that lives in memory (its address is taken: `m := *p.m; ...; return &m`) is denoted by its
+	// cell, not by the value it was initialised with: prefer a dominating Alloc of that name
+	if best != nil {
+		if _, isAlloc := best.(*ssa.Alloc); !isAlloc {
+			for _, v := range names[name] {
+				if a, ok := v.(*ssa.Alloc); ok && a.Block() != nil && (a.Block() == b || a.Block().Dominates(b)) {
+					return a
+				}
+			}
 		}
 	}
 	return best
